@@ -16,8 +16,9 @@
 //
 // Every digest of phase 2 and 3 must equal the digest of phase 1 for the same (g, case).
 // A case may also return a digest that starts with OracleFail when a known answer is
-// violated. Differences are printed as `RACEAUDIT-MISMATCH key=<key> what=<details>` (one
-// line per distinct key); `RACEAUDIT-STATS goroutines=<G> calls=<n>` is always printed.
+// violated. Differences are printed as `RACEAUDIT-MISMATCH key=<entry point>|<kind> what=<details>`
+// (one line per distinct key; entry point = first segment of the case key, kind = known-answer /
+// concurrent≠sequential / state-left-behind); `RACEAUDIT-STATS goroutines=<G> calls=<n>` is always printed.
 // DATA RACE reports come from the race detector itself.
 package ra
 
@@ -250,6 +251,14 @@ func Run(t *testing.T, G, rounds int, maxDur time.Duration, cases []Case) {
 	if exp == nil {
 		exp = after
 	}
+	// one mismatch key per (entry point = first segment of the case key, kind): one root cause
+	// gives one stable key, the failing case is named in the details
+	group := func(k string) string {
+		if i := strings.Index(k, "|"); i > 0 {
+			return k[:i]
+		}
+		return k
+	}
 	bad := map[string]string{}
 	calls := 0
 	for g := range got {
@@ -258,12 +267,12 @@ func Run(t *testing.T, G, rounds int, maxDur time.Duration, cases []Case) {
 			want := exp[g][o.i]
 			switch {
 			case strings.HasPrefix(o.d, OracleFail):
-				if _, ok := bad[cases[o.i].Key+"|oracle"]; !ok {
-					bad[cases[o.i].Key+"|oracle"] = fmt.Sprintf("goroutine=%d round=%d %s", g, o.round, clip(o.d))
+				if _, ok := bad[group(cases[o.i].Key)+"|known-answer"]; !ok {
+					bad[group(cases[o.i].Key)+"|known-answer"] = fmt.Sprintf("case=%s goroutine=%d round=%d %s", cases[o.i].Key, g, o.round, clip(o.d))
 				}
 			case o.d != want:
-				if _, ok := bad[cases[o.i].Key+"|concurrent"]; !ok {
-					bad[cases[o.i].Key+"|concurrent"] = fmt.Sprintf("goroutine=%d round=%d concurrent=%s sequential=%s", g, o.round, clip(o.d), clip(want))
+				if _, ok := bad[group(cases[o.i].Key)+"|concurrent≠sequential"]; !ok {
+					bad[group(cases[o.i].Key)+"|concurrent≠sequential"] = fmt.Sprintf("case=%s goroutine=%d round=%d concurrent=%s sequential=%s", cases[o.i].Key, g, o.round, clip(o.d), clip(want))
 				}
 			}
 		}
@@ -271,8 +280,8 @@ func Run(t *testing.T, G, rounds int, maxDur time.Duration, cases []Case) {
 	for g := range after {
 		for i, d := range after[g] {
 			if d != exp[g][i] {
-				if _, ok := bad[cases[i].Key+"|after"]; !ok {
-					bad[cases[i].Key+"|after"] = fmt.Sprintf("goroutine-id=%d sequential-after-concurrent-phase=%s pristine=%s", g, clip(d), clip(exp[g][i]))
+				if _, ok := bad[group(cases[i].Key)+"|state-left-behind"]; !ok {
+					bad[group(cases[i].Key)+"|state-left-behind"] = fmt.Sprintf("case=%s goroutine-id=%d sequential-after-concurrent-phase=%s pristine=%s", cases[i].Key, g, clip(d), clip(exp[g][i]))
 				}
 			}
 		}
